@@ -291,6 +291,10 @@ pub fn record_run<T: Sc>(rs: &RunSpec<T>) -> RunOut {
         };
         termination = fo.termination.clone();
         fit_ok = fo.ok;
+        if std::env::var("VPH_DEBUG_USER").is_ok() && rs.fault.is_none() && fo.termination.starts_with("User") {
+            let pm = model_matrix(rs, &fo.fin.params);
+            eprintln!("DEBUG-USER {} {} params={:?} phi={:?} x={:?} w={:?}", T::NAME, rs.label, fo.fin.params.iter().map(|v| v.to64()).collect::<Vec<_>>(), pm.map(|m| m.iter().map(|v| v.to64()).collect::<Vec<_>>()), rs.x.iter().map(|v| v.to64()).collect::<Vec<_>>(), rs.w.as_ref().map(|w| w.iter().map(|v| v.to64()).collect::<Vec<_>>()));
+        }
         let obj = fo.objective.to64();
         let snap_end = Snap {
             params: fo.fin.params.clone(),
